@@ -225,6 +225,12 @@ func (w *World) verifyFunc(fn *ssa.Function, c *FuncContract) (res *FuncResult) 
 			res.Err = "binding: reach statement not found: " + rc.Stmt
 		}
 	}
+	for _, gcl := range c.Guarded {
+		if gcl.Clause.Label != "bound" && w.writingBaseline {
+			vc.diag("%s: guarded %s: the function never touches such a location", name, gcl.Pat)
+			res.Err = "binding: guarded heap never accessed: " + gcl.Pat
+		}
+	}
 	if out == nil {
 		return
 	}
